@@ -173,6 +173,36 @@ mod h {
         [a[0] + b[0], a[1] + b[1], a[2] + b[2], a[3] + b[3]]
     }
 
+    use quantity::{Quantity, SIUnit};
+    use typenum::Integer;
+    /// expected value through the same unit conversion as the getter's own result
+    /// (from_reduced(x).to_reduced() is (x*F)/F, not bitwise x)
+    pub fn like<T: Integer, L: Integer, M: Integer, I: Integer, TH: Integer, N: Integer, J: Integer>(
+        _q: &Quantity<f64, SIUnit<T, L, M, I, TH, N, J>>,
+        x: f64,
+    ) -> f64 {
+        Quantity::<f64, SIUnit<T, L, M, I, TH, N, J>>::from_reduced(x).to_reduced()
+    }
+    pub fn like_a<D, T: Integer, L: Integer, M: Integer, I: Integer, TH: Integer, N: Integer, J: Integer>(
+        _q: &Quantity<ndarray::Array<f64, D>, SIUnit<T, L, M, I, TH, N, J>>,
+        x: f64,
+    ) -> f64 {
+        Quantity::<f64, SIUnit<T, L, M, I, TH, N, J>>::from_reduced(x).to_reduced()
+    }
+    /// (getter value, expected value) for a scalar / an element of an array quantity
+    macro_rules! g {
+        ($q:expr, $w:expr) => {{
+            let q = $q;
+            (q.to_reduced(), like(&q, $w))
+        }};
+    }
+    macro_rules! ga {
+        ($q:expr, $i:expr, $w:expr) => {{
+            let q = $q;
+            (q.to_reduced()[$i], like_a(&q, $w))
+        }};
+    }
+
     /// through the same unit conversion as the getter (from_reduced(x).to_reduced() is (x*F)/F)
     macro_rules! q {
         ($ty:ty, $x:expr) => {
@@ -184,15 +214,14 @@ mod h {
     // C01-a: residual getters return bitwise the closed-form derivative (sign, seeding, key)
     // ------------------------------------------------------------------------------------------
     macro_rules! res_getter {
-        ($name:ident, $nsym:expr, |$s:ident, $c:ident| $got:expr, $want:expr) => {
+        ($name:ident, $nsym:expr, |$s:ident, $c:ident| $pair:expr) => {
             #[kani::proof]
             #[kani::stub(std::hash::RandomState::new, fixed_random_state)]
             #[kani::unwind(16)]
             fn $name() {
                 let $c = coeffs($nsym, &PRIMES);
                 let $s = state($c, IDEAL);
-                let got: f64 = $got;
-                let want: f64 = $want;
+                let (got, want): (f64, f64) = $pair;
                 assert!(same(got, want));
                 kani::cover!(true);
                 std::mem::forget($s);
@@ -204,13 +233,13 @@ mod h {
         Some(s) => (s.as_bytes()[0] - b'0') as usize,
         None => 2,
     };
-    res_getter!(c01_pressure_res, NS, |s, c| s.pressure(Contributions::Residual).to_reduced(), q!(quantity::Pressure, -dpoly(&c, ord(1, 0, 0, 0))));
-    res_getter!(c01_residual_entropy, NS, |s, c| s.residual_entropy().to_reduced(), q!(quantity::Entropy, -dpoly(&c, ord(0, 1, 0, 0))));
-    res_getter!(c01_dp_dv_res, NS, |s, c| s.dp_dv(Contributions::Residual).to_reduced(), -dpoly(&c, ord(2, 0, 0, 0)));
-    res_getter!(c01_dp_dt_res, NS, |s, c| s.dp_dt(Contributions::Residual).to_reduced(), -dpoly(&c, ord(1, 1, 0, 0)));
-    res_getter!(c01_ds_res_dt, NS, |s, c| s.ds_res_dt().to_reduced(), -dpoly(&c, ord(0, 2, 0, 0)));
-    res_getter!(c01_d2s_res_dt2, NS, |s, c| s.d2s_res_dt2().to_reduced(), -dpoly(&c, ord(0, 3, 0, 0)));
-    res_getter!(c01_d2p_dv2_res, NS, |s, c| s.d2p_dv2(Contributions::Residual).to_reduced(), -dpoly(&c, ord(3, 0, 0, 0)));
+    res_getter!(c01_pressure_res, NS, |s, c| g!(s.pressure(Contributions::Residual), -dpoly(&c, ord(1, 0, 0, 0))));
+    res_getter!(c01_residual_entropy, NS, |s, c| g!(s.residual_entropy(), -dpoly(&c, ord(0, 1, 0, 0))));
+    res_getter!(c01_dp_dv_res, NS, |s, c| g!(s.dp_dv(Contributions::Residual), -dpoly(&c, ord(2, 0, 0, 0))));
+    res_getter!(c01_dp_dt_res, NS, |s, c| g!(s.dp_dt(Contributions::Residual), -dpoly(&c, ord(1, 1, 0, 0))));
+    res_getter!(c01_ds_res_dt, NS, |s, c| g!(s.ds_res_dt(), -dpoly(&c, ord(0, 2, 0, 0))));
+    res_getter!(c01_d2s_res_dt2, NS, |s, c| g!(s.d2s_res_dt2(), -dpoly(&c, ord(0, 3, 0, 0))));
+    res_getter!(c01_d2p_dv2_res, NS, |s, c| g!(s.d2p_dv2(Contributions::Residual), -dpoly(&c, ord(3, 0, 0, 0))));
 
     // component-indexed getters: symbolic component index
     #[kani::proof]
@@ -220,8 +249,8 @@ mod h {
         let c = coeffs(NS, &PRIMES);
         let s = state(c, IDEAL);
         let i = any_comp();
-        let got = s.residual_chemical_potential().to_reduced()[i];
-        assert!(same(got, q!(quantity::MolarEnergy, dpoly(&c, dn(i)))));
+        let (got, want) = ga!(s.residual_chemical_potential(), i, dpoly(&c, dn(i)));
+        assert!(same(got, want));
         kani::cover!(i == 1);
         std::mem::forget(s);
     }
@@ -232,8 +261,8 @@ mod h {
         let c = coeffs(NS, &PRIMES);
         let s = state(c, IDEAL);
         let i = any_comp();
-        let got = s.dp_dni(Contributions::Residual).to_reduced()[i];
-        assert!(same(got, -dpoly(&c, add(ord(1, 0, 0, 0), dn(i)))));
+        let (got, want) = ga!(s.dp_dni(Contributions::Residual), i, -dpoly(&c, add(ord(1, 0, 0, 0), dn(i))));
+        assert!(same(got, want));
         kani::cover!(i == 1);
         std::mem::forget(s);
     }
@@ -244,8 +273,8 @@ mod h {
         let c = coeffs(NS, &PRIMES);
         let s = state(c, IDEAL);
         let i = any_comp();
-        let got = s.dmu_res_dt().to_reduced()[i];
-        assert!(same(got, dpoly(&c, add(ord(0, 1, 0, 0), dn(i)))));
+        let (got, want) = ga!(s.dmu_res_dt(), i, dpoly(&c, add(ord(0, 1, 0, 0), dn(i))));
+        assert!(same(got, want));
         kani::cover!(i == 1);
         std::mem::forget(s);
     }
@@ -256,8 +285,8 @@ mod h {
         let c = coeffs(NS, &PRIMES);
         let s = state(c, IDEAL);
         let (i, j) = (any_comp(), any_comp());
-        let got = s.dmu_dni(Contributions::Residual).to_reduced()[[i, j]];
-        assert!(same(got, dpoly(&c, add(dn(i), dn(j)))));
+        let (got, want) = ga!(s.dmu_dni(Contributions::Residual), [i, j], dpoly(&c, add(dn(i), dn(j))));
+        assert!(same(got, want));
         kani::cover!(i == 1 && j == 0);
         std::mem::forget(s);
     }
@@ -266,7 +295,7 @@ mod h {
     // C10-a: selector: Total == IdealGas + Residual (same addition), each part the closed form
     // ------------------------------------------------------------------------------------------
     macro_rules! sel_getter {
-        ($name:ident, |$s:ident, $k:ident| $get:expr, $sign:expr, $o:expr) => {
+        ($name:ident, |$s:ident, $k:ident, $w:ident| $pair:expr, $sign:expr, $o:expr) => {
             #[kani::proof]
             #[kani::stub(std::hash::RandomState::new, fixed_random_state)]
             #[kani::unwind(16)]
@@ -274,28 +303,31 @@ mod h {
                 let c = coeffs(2, &PRIMES);
                 let ci = coeffs(2, &IDEAL);
                 let $s = state(c, ci);
-                let $k = Contributions::Total;
-                let tot: f64 = $get;
-                let $k = Contributions::IdealGas;
-                let ig: f64 = $get;
-                let $k = Contributions::Residual;
-                let res: f64 = $get;
                 let sg: f64 = $sign;
-                assert!(same(res, sg * dpoly(&c, $o)));
-                assert!(same(ig, sg * dpoly(&ci, $o)));
-                assert!(same(tot, sg * (dpoly(&ci, $o) + dpoly(&c, $o))));
+                let $k = Contributions::Total;
+                let $w = sg * (dpoly(&ci, $o) + dpoly(&c, $o));
+                let (tot, tot_w): (f64, f64) = $pair;
+                let $k = Contributions::IdealGas;
+                let $w = sg * dpoly(&ci, $o);
+                let (ig, ig_w): (f64, f64) = $pair;
+                let $k = Contributions::Residual;
+                let $w = sg * dpoly(&c, $o);
+                let (res, res_w): (f64, f64) = $pair;
+                assert!(same(res, res_w));
+                assert!(same(ig, ig_w));
+                assert!(same(tot, tot_w));
                 kani::cover!(true);
                 std::mem::forget($s);
             }
         };
     }
     // getters that go through `get_or_compute_derivative` (properties.rs), one per derivative order's arm
-    sel_getter!(c10_helmholtz_energy, |s, k| s.helmholtz_energy(k).to_reduced(), 1.0, ord(0, 0, 0, 0));
-    sel_getter!(c10_entropy, |s, k| s.entropy(k).to_reduced(), -1.0, ord(0, 1, 0, 0));
-    sel_getter!(c10_ds_dt, |s, k| s.ds_dt(k).to_reduced(), -1.0, ord(0, 2, 0, 0));
-    sel_getter!(c10_d2s_dt2, |s, k| s.d2s_dt2(k).to_reduced(), -1.0, ord(0, 3, 0, 0));
-    sel_getter!(c10_chemical_potential_1, |s, k| s.chemical_potential(k).to_reduced()[1], 1.0, ord(0, 0, 0, 1));
-    sel_getter!(c10_dmu_dt_0, |s, k| s.dmu_dt(k).to_reduced()[0], 1.0, ord(0, 1, 1, 0));
+    sel_getter!(c10_helmholtz_energy, |s, k, w| g!(s.helmholtz_energy(k), w), 1.0, ord(0, 0, 0, 0));
+    sel_getter!(c10_entropy, |s, k, w| g!(s.entropy(k), w), -1.0, ord(0, 1, 0, 0));
+    sel_getter!(c10_ds_dt, |s, k, w| g!(s.ds_dt(k), w), -1.0, ord(0, 2, 0, 0));
+    sel_getter!(c10_d2s_dt2, |s, k, w| g!(s.d2s_dt2(k), w), -1.0, ord(0, 3, 0, 0));
+    sel_getter!(c10_chemical_potential_1, |s, k, w| ga!(s.chemical_potential(k), 1, w), 1.0, ord(0, 0, 0, 1));
+    sel_getter!(c10_dmu_dt_0, |s, k, w| ga!(s.dmu_dt(k), 0, w), 1.0, ord(0, 1, 1, 0));
 
     /// ideal-gas pressure is rho * R * T for all finite positive inputs (bitwise the same product),
     /// and Total = IdealGas + Residual for the pressure family
@@ -344,38 +376,22 @@ mod h {
     // ------------------------------------------------------------------------------------------
     // C11 (getter level): g after h, and g on a clone taken before/after h, equals g on a fresh state
     // ------------------------------------------------------------------------------------------
-    fn getter(s: &State<PolyEos>, which: u8, i: usize) -> f64 {
+    /// (value, expected) of getter number `which` for component index i
+    fn getter(s: &State<PolyEos>, c: &[f64; K], which: u8, i: usize) -> (f64, f64) {
         match which {
-            0 => s.residual_helmholtz_energy().to_reduced(),
-            1 => s.pressure(Contributions::Residual).to_reduced(),
-            2 => s.residual_entropy().to_reduced(),
-            3 => s.residual_chemical_potential().to_reduced()[i],
-            4 => s.dp_dv(Contributions::Residual).to_reduced(),
-            5 => s.ds_res_dt().to_reduced(),
-            6 => s.dp_dt(Contributions::Residual).to_reduced(),
-            7 => s.dp_dni(Contributions::Residual).to_reduced()[i],
-            8 => s.dmu_res_dt().to_reduced()[i],
-            9 => s.dmu_dni(Contributions::Residual).to_reduced()[[i, 1 - i]],
-            10 => s.dmu_dni(Contributions::Residual).to_reduced()[[i, i]],
-            11 => s.d2p_dv2(Contributions::Residual).to_reduced(),
-            _ => s.d2s_res_dt2().to_reduced(),
-        }
-    }
-    fn expected(c: &[f64; K], which: u8, i: usize) -> f64 {
-        match which {
-            0 => q!(quantity::Energy, dpoly(c, ord(0, 0, 0, 0))),
-            1 => q!(quantity::Pressure, -dpoly(c, ord(1, 0, 0, 0))),
-            2 => q!(quantity::Entropy, -dpoly(c, ord(0, 1, 0, 0))),
-            3 => q!(quantity::MolarEnergy, dpoly(c, dn(i))),
-            4 => -dpoly(c, ord(2, 0, 0, 0)),
-            5 => -dpoly(c, ord(0, 2, 0, 0)),
-            6 => -dpoly(c, ord(1, 1, 0, 0)),
-            7 => -dpoly(c, add(ord(1, 0, 0, 0), dn(i))),
-            8 => dpoly(c, add(ord(0, 1, 0, 0), dn(i))),
-            9 => dpoly(c, add(dn(i), dn(1 - i))),
-            10 => dpoly(c, add(dn(i), dn(i))),
-            11 => -dpoly(c, ord(3, 0, 0, 0)),
-            _ => -dpoly(c, ord(0, 3, 0, 0)),
+            0 => g!(s.residual_helmholtz_energy(), dpoly(c, ord(0, 0, 0, 0))),
+            1 => g!(s.pressure(Contributions::Residual), -dpoly(c, ord(1, 0, 0, 0))),
+            2 => g!(s.residual_entropy(), -dpoly(c, ord(0, 1, 0, 0))),
+            3 => ga!(s.residual_chemical_potential(), i, dpoly(c, dn(i))),
+            4 => g!(s.dp_dv(Contributions::Residual), -dpoly(c, ord(2, 0, 0, 0))),
+            5 => g!(s.ds_res_dt(), -dpoly(c, ord(0, 2, 0, 0))),
+            6 => g!(s.dp_dt(Contributions::Residual), -dpoly(c, ord(1, 1, 0, 0))),
+            7 => ga!(s.dp_dni(Contributions::Residual), i, -dpoly(c, add(ord(1, 0, 0, 0), dn(i)))),
+            8 => ga!(s.dmu_res_dt(), i, dpoly(c, add(ord(0, 1, 0, 0), dn(i)))),
+            9 => ga!(s.dmu_dni(Contributions::Residual), [i, 1 - i], dpoly(c, add(dn(i), dn(1 - i)))),
+            10 => ga!(s.dmu_dni(Contributions::Residual), [i, i], dpoly(c, add(dn(i), dn(i)))),
+            11 => g!(s.d2p_dv2(Contributions::Residual), -dpoly(c, ord(3, 0, 0, 0))),
+            _ => g!(s.d2s_res_dt2(), -dpoly(c, ord(0, 3, 0, 0))),
         }
     }
     /// one harness per (predecessor h, final getter g); component indices and the clone position symbolic
@@ -389,11 +405,13 @@ mod h {
                 let (i, j) = (any_comp(), any_comp());
                 let clone_before: bool = kani::any();
                 let pre = s.clone();
-                let _ = getter(&s, $h, i);
+                let _ = getter(&s, &PRIMES, $h, i);
                 let post = s.clone();
                 let t = if clone_before { &pre } else { &post };
-                assert!(same(getter(&s, $g, j), expected(&PRIMES, $g, j)));
-                assert!(same(getter(t, $g, j), expected(&PRIMES, $g, j)));
+                let (a, wa) = getter(&s, &PRIMES, $g, j);
+                assert!(same(a, wa));
+                let (b, wb) = getter(t, &PRIMES, $g, j);
+                assert!(same(b, wb));
                 kani::cover!(clone_before && i != j);
                 std::mem::forget(s);
                 std::mem::forget(pre);
